@@ -26,18 +26,31 @@ func register(id string, run func(w *World, r *Report)) {
 
 func main() {
 	var (
-		prop    = flag.String("property", "", "property id (C01..C20)")
-		tier    = flag.String("tier", "", "quick|thorough (default: $VERIF_TIER or quick)")
-		repo    = flag.String("repo", "/repo", "repository to analyse")
-		verif   = flag.String("verif", "/verif", "verification directory (evidence, known findings)")
-		replay  = flag.String("replay", "", "replay file: re-run the rule instance recorded in it")
-		list    = flag.Bool("list", false, "list implemented properties")
-		noEvid  = flag.Bool("no-evidence", false, "write evidence to a scratch directory (used for seeded variants)")
-		goos    = flag.String("goos", "", "GOOS for the load (default: host)")
-		goarch  = flag.String("goarch", "", "GOARCH for the load (default: host)")
-		inner   = flag.Bool("inner", false, "internal: run as matrix/variant sub-process, print JSON summary")
+		prop   = flag.String("property", "", "property id (C01..C20)")
+		tier   = flag.String("tier", "", "quick|thorough (default: $VERIF_TIER or quick)")
+		repo   = flag.String("repo", "/repo", "repository to analyse")
+		verif  = flag.String("verif", "/verif", "verification directory (evidence, known findings)")
+		replay = flag.String("replay", "", "replay file: re-run the rule instance recorded in it")
+		list   = flag.Bool("list", false, "list implemented properties")
+		noEvid = flag.Bool("no-evidence", false, "write evidence to a scratch directory (used for seeded variants)")
+		goos   = flag.String("goos", "", "GOOS for the load (default: host)")
+		goarch = flag.String("goarch", "", "GOARCH for the load (default: host)")
+		inner  = flag.Bool("inner", false, "internal: run as matrix/variant sub-process, print JSON summary")
+		dbg    = flag.String("debug", "", "development aid: appends")
 	)
 	flag.Parse()
+	if *dbg != "" {
+		w, err := loadWorld(*repo, *goos, *goarch)
+		if err != nil {
+			fmt.Fprintln(os.Stderr, err)
+			os.Exit(2)
+		}
+		switch *dbg {
+		case "appends":
+			debugAppends(w)
+		}
+		return
+	}
 	if *list {
 		ids := make([]string, 0, len(registry))
 		for id := range registry {
